@@ -4,3 +4,4 @@ INVARIANT FTRoundTripLaw
 INVARIANT HermitianLaw
 INVARIANT GridLaw
 INVARIANT ZeroColumnLaw
+INVARIANT ImplTableRefines
